@@ -137,8 +137,12 @@ def build_equipment(edfa_entries, span=None, si=None, roadm=None):
 
 
 def nf_of(gain, amp):
-    from gnpy.core.network import edfa_nf
-    v = float(edfa_nf(gain, amp))
+    """noise figure of a library entry at a required gain, computed from the element model itself (gnpy.core.elements,
+    property C04) on a fresh element - not through network.edfa_nf, which is part of what is checked here"""
+    from gnpy.core import elements
+    e = elements.Edfa(uid='nf_input', params=amp.__dict__, operational={'gain_target': gain, 'tilt_target': 0})
+    e.pin_db, e.nch, e.slot_width = 0, 88, 50e9
+    v = float(e._calc_nf(True))
     if math.isinf(v) and v < 0:
         return NEG_INF_NF
     return v
@@ -172,32 +176,88 @@ def gen_targets(rng, views):
     return float(gain), float(power), float(ext), rng.random() < 0.5
 
 
+def recharacterise(rng, lib):
+    """the same library after a what-if edit: same names, same order, same kinds; noise parameters re-drawn, sometimes
+    p_max and the gain range too (a model measured again, or replaced by its successor under the same name)"""
+    out = copy.deepcopy(lib)
+    for e in out:
+        if e['type_def'] == 'multi_band':
+            continue
+        if rng.random() < 0.2:
+            continue                                   # unchanged entry
+        if rng.random() < 0.25:
+            e['p_max'] = rng.choice([12, 14, 16, 18, 19, 21, 21, 23, 25]) + rng.choice([0, 0, 0, 0.5])
+        if rng.random() < 0.2 and e['type_def'] in ('variable_gain', 'fixed_gain'):
+            d = rng.choice([-2, -1, 1, 2, 3])
+            if e['gain_flatmax'] == e['gain_min']:
+                e['gain_min'] = e['gain_flatmax'] = e['gain_min'] + d
+            else:
+                e['gain_flatmax'] += d
+        if e['type_def'] == 'variable_gain':
+            nf = _vg_nf(rng, e['type_variety'], e['gain_min'], e['gain_flatmax'])
+            if nf is not None:
+                e['nf_min'], e['nf_max'] = nf
+        elif e['type_def'] == 'fixed_gain':
+            e['nf0'] = rng.choice([-1, 4.5, 5, 5.5, 5.5, 6, 6, 6.5, 7])
+        elif e['type_def'] == 'advanced_model':
+            e['advanced_config_from_json'] = rng.choice(['std_medium_gain_advanced_config.json', 'Juniper-BoosterHG.json'])
+        elif e['type_def'] == 'openroadm':
+            e['nf_coef'] = rng.choice([[-8.104e-4, -6.221e-2, -5.889e-1, 37.62], [-5.952e-4, -6.250e-2, -1.071, 28.99]])
+    return out
+
+
 def gen_case_a(rng):
+    """a library, or a sequence of libraries (the same library re-characterised once or twice) that one process works
+    with one after the other: every library of the sequence is asked the same questions"""
     lib = gen_library(rng)
-    return {'kind': 'A', 'lib': lib, 'seed': rng.getrandbits(32)}
+    case = {'kind': 'A', 'lib': lib, 'seed': rng.getrandbits(32)}
+    if rng.random() < 0.4:
+        seq = [lib]
+        for _ in range(rng.choice([1, 1, 2])):
+            seq.append(recharacterise(rng, seq[-1]))
+        case['prior'], case['lib'] = seq[:-1], seq[-1]
+    return case
 
 
 def drive_a(case):
-    """returns list of observation dicts (one per select_edfa call)"""
+    """returns a list of steps (library views, observation dicts - one per select_edfa call), one step per library of the
+    sequence case['prior'] + [case['lib']], all in this process; every library is asked the questions of the first one
+    (same candidates by name, same targets)"""
     import random
+    rng = random.Random(case['seed'])
+    steps, questions = [], None
+    for lib_json in case.get('prior', []) + [case['lib']]:
+        lib_views, obs = drive_a_lib(case, lib_json, rng, questions)
+        if obs:
+            steps.append((lib_json, lib_views, obs))
+            if questions is None:
+                questions = [([v['name'] for v in r['views']], (r['gain'], r['power'], r['ext'], r['ra'])) for r in obs]
+    return steps
+
+
+def drive_a_lib(case, lib_json, rng, questions):
     from gnpy.core.network import select_edfa
     from gnpy.core.exceptions import ConfigurationError
-    rng = random.Random(case['seed'])
-    eq = build_equipment(case['lib'])
+    eq = build_equipment(lib_json)
     lib = {n: a for n, a in eq['Edfa'].items() if a.type_def != 'multi_band'}
     if not lib:
         return [], []
     obs = []
     names = list(lib)
-    for _ in range(case.get('ncalls', 6)):
-        sub = names if rng.random() < 0.5 else [n for n in names if rng.random() < 0.6]
-        if rng.random() < 0.1:
-            sub = [n for n in sub if lib[n].raman]            # nothing but Raman models: the error branch
-        if 'cands' in case:
-            sub = [n for n in case['cands'] if n in lib]
+    for k in range(len(questions) if questions is not None else case.get('ncalls', 6)):
+        if questions is not None:
+            sub = [n for n in questions[k][0] if n in lib]
+        else:
+            sub = names if rng.random() < 0.5 else [n for n in names if rng.random() < 0.6]
+            if rng.random() < 0.1:
+                sub = [n for n in sub if lib[n].raman]            # nothing but Raman models: the error branch
+            if 'cands' in case:
+                sub = [n for n in case['cands'] if n in lib]
         dic = {n: lib[n] for n in sub}
         views = [amp_view(n, lib[n]) for n in sub]
-        if 'targets' in case:
+        if questions is not None:
+            gain, power, ext, ra = questions[k][1]
+        elif 'targets' in case:
             gain, power, ext, ra = case['targets']
         else:
             gain, power, ext, ra = gen_targets(rng, views or [amp_view(n, lib[n]) for n in names])
@@ -483,9 +543,17 @@ def gen_case_c(rng):
     si['f_min'] = 191.3e12
     si['f_max'] = 191.3e12 + rng.choice([8, 20, 40]) * si['spacing']
     gnames = [g['type_variety'] for g in groups]
+    snames = [a['type_variety'] for a in cs + ls]
+
+    def restr_list(k):
+        """a restriction list of a multiband site: multiband models, or (a ROADM's lists serve single band degrees too)
+        a mix of multiband and single band models, or single band models only"""
+        u = rng.random()
+        pool = gnames if u < 0.6 else (gnames + snames if u < 0.8 else snames)
+        return rng.sample(pool, min(k, len(pool)))
     roadm = [{'target_pch_out_db': rng.choice([-20, -18, -22]), 'add_drop_osnr': 38, 'pmd': 0, 'pdl': 0,
-              'restrictions': {'preamp_variety_list': rng.sample(gnames, 1) if rng.random() < 0.2 else [],
-                               'booster_variety_list': rng.sample(gnames, rng.choice([1, 2])) if rng.random() < 0.2 else []}}]
+              'restrictions': {'preamp_variety_list': restr_list(rng.choice([1, 2])) if rng.random() < 0.25 else [],
+                               'booster_variety_list': restr_list(rng.choice([1, 2, 3])) if rng.random() < 0.25 else []}}]
     n = rng.randint(1, 3)
     chain = ['trx A', 'roadm A', 'mb 0']
     els = []
@@ -498,7 +566,7 @@ def gen_case_c(rng):
     for i in range(n + 1):
         e = {'uid': f'mb {i}', 'type': 'Multiband_amplifier'}
         if rng.random() < 0.2:
-            e['variety_list'] = rng.sample(gnames, rng.choice([1, 2]))
+            e['variety_list'] = restr_list(rng.choice([1, 2]))
         els.append(e)
     bands = [{'f_min': 191.3e12, 'f_max': 196.0e12}, {'f_min': rng.choice([187.0e12, 186.6e12]), 'f_max': 190.0e12}]
     els += [{'uid': 'trx A', 'type': 'Transceiver'}, {'uid': 'trx B', 'type': 'Transceiver'},
@@ -812,22 +880,30 @@ def run(ctx):
     for c in cases:
         if c.get('kind', 'A') == 'A':
             try:
-                lib_views, obs = drive_a(c)
+                steps = drive_a(c)
             except Exception as e:       # a library the loader rejects: counted, nothing to judge
                 ctx.count('A_library_rejected:' + type(e).__name__)
                 continue
-            if not obs:
-                continue
-            for rec in obs:
-                ctx.count('A_calls')
-                ctx.count('A_ncand_%02d' % len(rec['views']))
-                rec['_case'] = {'kind': 'A', 'lib': c['lib'], 'seed': c['seed'], 'ncalls': 1,
-                                'targets': [rec['gain'], rec['power'], rec['ext'], rec['ra']],
-                                'cands': [v['name'] for v in rec['views']]}
-                ctx.case({'cands': rec['_case']['cands'], 't': rec['_case']['targets'], 'lib': c['lib']},
-                         len(rec['views']) >= 2)
-            terms.append(term_a(lib_views, obs))
-            meta.append(('A', obs, None))
+            if len(steps) > 1:
+                ctx.count('A_library_sequences')
+            before = []
+            for lib_json, lib_views, obs in steps:
+                for rec in obs:
+                    ctx.count('A_calls')
+                    if before:
+                        ctx.count('A_calls_repeated_on_recharacterised_library')
+                    ctx.count('A_ncand_%02d' % len(rec['views']))
+                    # replay: the libraries worked with before are asked the same question first, in this process
+                    rec['_case'] = {'kind': 'A', 'lib': lib_json, 'seed': c['seed'], 'ncalls': 1,
+                                    'targets': [rec['gain'], rec['power'], rec['ext'], rec['ra']],
+                                    'cands': [v['name'] for v in rec['views']]}
+                    if before:
+                        rec['_case']['prior'] = list(before)
+                    ctx.case({'cands': rec['_case']['cands'], 't': rec['_case']['targets'], 'lib': lib_json},
+                             len(rec['views']) >= 2)
+                terms.append(term_a(lib_views, obs))
+                meta.append(('A', obs, None))
+                before.append(lib_json)
         elif c.get('kind') == 'C':
             try:
                 built, obs, status = drive_c(c)
@@ -896,8 +972,9 @@ def run(ctx):
         'translator tie: harness/pygen_c10.py (fail-closed Python-ast -> Gallina over Q, on harness/pygen.py: templates for '
         'filter_edfa_list_based_on_targets, select_edfa, get_node_restrictions, preselect_multiband_amps and the '
         'raman_allowed statement of set_one_amplifier; translated holes: margins, filters, power reduction, band cover)',
-        'the noise figure of every candidate at the required gain is an input of the model, computed with '
-        'gnpy.core.network.edfa_nf (the NF model is property C04); -inf (openroadm_booster) is represented by -1e6',
+        'the noise figure of every candidate at the required gain is an input of the model, computed on a fresh '
+        'gnpy.core.elements.Edfa of the library entry (_calc_nf; the NF model is property C04) - not through '
+        'network.edfa_nf, which the translator tie template-matches; -inf (openroadm_booster) is represented by -1e6',
         'multiband nodes: the per band gain/power targets (compute_gain_power_and_tilt_target, C09) are inputs recorded '
         'from the implementation; nodes with an imposed multiband type_variety are not generated',
     ]
